@@ -402,8 +402,11 @@ def check_decode(rep, rng, ks, cases, ires, mres):
             im = sd["impls"][ix]
             bus = im["fields"].get("bus", "default")
             em = next((x for b in m["buses"] if b["bus"] == bus for x in b["messages"] if x["name"] == im["name"]), None)
-            if em is None or any(s["big"] or s["mux_ids"] or s["is_mux"] for s in em["signals"]):
+            # multiplexed layouts are compared signal by signal only; big-endian (byte-aligned) signals are packed by the
+            # model most significant byte first (`packLeavesE`) and decoded by cantools as Motorola signals
+            if em is None or any(s["mux_ids"] or s["is_mux"] for s in em["signals"]):
                 continue
+            rep.hist("decode_checks", "message with Motorola signals" if any(s["big"] for s in em["signals"]) else "Intel only")
             vals = []
             for s in em["signals"]:
                 if s["signed"]:
